@@ -169,11 +169,14 @@ Definition chan_run (cap Y : Z) (bound : nat) (sched : list nat) (scripts : list
    queue_sem.wait, and the semaphore holds no token: then nothing but the 100 ms timed re-check can make progress. *)
 Definition blocked_recv (pc : cpc) : bool := match pc with CRSemWait => true | _ => false end.
 Definition blocked_send (pc : cpc) : bool := match pc with CSSemWait _ => true | _ => false end.
+Definition idle_pc (pc : cpc) : bool := match pc with CSPush1 _ | CRPop1 => true | _ => false end.   (* parked before its next op *)
+Definition thr_state (st : cstate) (f : cpc -> bool) (dflt : bool) (p : nat) : bool :=
+  match t_pc (c_thr st p) with Some pc => f pc | None => dflt end.
 Definition lost_wakeup_recv (n : nat) (st : cstate) : bool :=
   negb (match c_q st with [] => true | _ => false end) && (c_qsem st =? 0) &&
-  existsb (fun p => match t_pc (c_thr st p) with Some pc => blocked_recv pc | None => false end) (seq 0 n) &&
-  forallb (fun p => match t_pc (c_thr st p) with Some pc => blocked_recv pc | None => true end) (seq 0 n).
+  existsb (thr_state st blocked_recv false) (seq 0 n) &&
+  forallb (thr_state st (fun pc => blocked_recv pc || idle_pc pc) true) (seq 0 n).
 Definition lost_wakeup_send (cap : Z) (n : nat) (st : cstate) : bool :=
   (Z.of_nat (length (c_q st)) <? cap) && (c_ssem st =? 0) &&
-  existsb (fun p => match t_pc (c_thr st p) with Some pc => blocked_send pc | None => false end) (seq 0 n) &&
-  forallb (fun p => match t_pc (c_thr st p) with Some pc => blocked_send pc | None => true end) (seq 0 n).
+  existsb (thr_state st blocked_send false) (seq 0 n) &&
+  forallb (thr_state st (fun pc => blocked_send pc || idle_pc pc) true) (seq 0 n).
